@@ -1863,10 +1863,13 @@ class Translator:
     def emit_function_text(self, decl, cn, selfp, body, cx):
         if not hasattr(cx, 'self_type'): cx.self_type = None
         params = [selfp] if selfp else []
+        forced = list(self.cfg.get('param_names', {}).get(cn.replace('__skel', ''), []))
         for p in self.params_of(decl):
             t = self.ctype(self.qt(p))
             if t.cls == 'empty': continue
-            nm = cx.uniq(p.get('name') or cx.tmp('p'))
+            # contracts name parameters: a unit may fix their names by position (renaming or un-naming a parameter in the
+            # source then does not break the contract)
+            nm = cx.uniq((forced.pop(0) if forced else None) or p.get('name') or cx.tmp('p'))
             params.append(t.decl(nm))
             cx.vars[p['id']] = ((f'(*{nm})' if t.ref else nm), t)
         cx.ret = self.ret_ctype(decl)
